@@ -494,22 +494,9 @@ func (m *c04Machine) joinSecond(voter bool) string {
 	}
 	m.model.Exec(b)
 	m.hist = append(m.hist, "W"+g8aShort(b))
-	target := m.s.raft.LastIndex()
-	deadline := time.Now().Add(40 * time.Second)
-	for s2.raft.AppliedIndex() < target {
-		if time.Now().After(deadline) {
-			m.rec.Label("inconclusive:node2-did-not-catch-up")
-			return "timeout"
-		}
-		time.Sleep(20 * time.Millisecond)
-	}
-	// AppliedIndex is advanced before the FSM has finished; wait for the FSM.
-	for s2.fsmIdx.Load() < m.s.fsmIdx.Load() {
-		if time.Now().After(deadline) {
-			m.rec.Label("inconclusive:node2-did-not-catch-up")
-			return "timeout"
-		}
-		time.Sleep(20 * time.Millisecond)
+	if !g8aWaitApplied(m.s, s2, time.Now().Add(40*time.Second)) {
+		m.rec.Label("inconclusive:node2-did-not-catch-up")
+		return "timeout"
 	}
 	kind := "log-replay"
 	if stats.Get(numRestores).String() != restoresBefore {
